@@ -5,10 +5,15 @@ import PromModel.Tsdb.Appendable
   `model`  = the transcribed mechanism (`Prom.Admit.model`).
   `judge`  = the *statement* of C02 as a sequential specification, written without the batch machinery:
      * every `Append*` answer must be the decision-table entry for (newest in-order sample of the series
-       as committed, window snapshot of the appender, OOO window), incl. the reject-out-of-order option;
-     * at `commit` the accepted samples are applied **in append order**, each one re-decided by the same
-       table against the state left by its predecessors: stored in order / stored out of order (first
-       writer wins on an equal OOO timestamp) / dropped;
+       as committed **by now**, window snapshot **of that appender**, OOO window), incl. the
+       reject-out-of-order option;
+     * at `commit` the samples accepted by that appender are applied **in append order**, each one
+       re-decided by the same table — same snapshot — against the state left by its predecessors and by
+       whatever other appenders committed meanwhile: stored in order / stored out of order (first writer
+       wins on an equal OOO timestamp) / dropped;
+     * up to three appenders are open at once (`@1`/`@2` op prefix); the snapshot is per appender: the head
+       (max time, min valid time) at `app` for an initialised head, at the appender's first sample for a
+       lazily created one.  The live head times move with every commit and are reported by `win`;
      * rejected and rolled-back samples never appear; queries must show exactly the resulting samples,
        with strictly increasing timestamps.
   The kind of a staleness marker that was appended as a *float* is left free (the code converts it to the
@@ -124,13 +129,8 @@ structure Pending where
   n : String
   x : JSample
 
-structure JState where
-  oooWin : Int := 0
-  cr : Int := 0
-  hMax : Option Int := none        -- head max time (none = head not initialised)
-  truncMin : Option Int := none
-  store : List (String × JSeries) := []
-  -- appender
+/-- What the statement tracks per open appender: its window snapshot and the samples it accepted. -/
+structure JApp where
   open_ : Bool := false
   v2 : Bool := false
   live : Bool := false
@@ -139,6 +139,21 @@ structure JState where
   rejectLazyOnly : Bool := false    -- requested only while the v1 appender was still lazy
   pending : List Pending := []      -- accepted, in append order (reversed)
 deriving Inhabited
+
+structure JState where
+  oooWin : Int := 0
+  cr : Int := 0
+  hMax : Option Int := none        -- head max time (none = head not initialised)
+  truncMin : Option Int := none
+  store : List (String × JSeries) := []
+  -- appender slots: `a` is the one the current op addresses
+  a : JApp := {}
+  a1 : JApp := {}
+  a2 : JApp := {}
+deriving Inhabited
+
+def JState.swap1 (s : JState) : JState := { s with a := s.a1, a1 := s.a }
+def JState.swap2 (s : JState) : JState := { s with a := s.a2, a2 := s.a }
 
 def JState.minValidNow (s : JState) (hMax : Int) : Int :=
   let a := hMax - Int.tdiv s.cr 2
@@ -152,101 +167,125 @@ def parseJ? (k t v : String) : Option JSample := do
 def hasHistBefore (p : List Pending) (n : String) : Bool :=
   p.any fun q => q.n = n ∧ q.x.kind ≠ .f
 
-/-- Applies the accepted samples in append order.  Second component: the transaction contains a float
-    staleness marker for a series whose newest in-order sample at that point is a histogram, followed by a
-    later accepted sample for the same series (the shape of finding C02-F1). -/
+/-- Applies the samples accepted by the addressed appender in append order: each one re-decided by the
+    table against the **appender's own window snapshot** and the series as they are *now* (including what
+    other appenders committed since the sample was accepted).  Second component: the transaction contains a
+    float staleness marker for a series whose newest in-order sample at that point is a histogram, followed
+    by a later accepted sample for the same series (the shape of finding C02-F1). -/
 def commitPending (s : JState) : JState × Bool :=
-  let ps := s.pending.reverse
+  let ps := s.a.pending.reverse
   let rec go (ps : List Pending) (store : List (String × JSeries)) (hm : Int) (flag : Bool) :
       List (String × JSeries) × Int × Bool :=
     match ps with
     | [] => (store, hm, flag)
     | p :: rest =>
       let ser := getS store p.n
-      let o := decide s.win.1 s.win.2 s.oooWin ser p.x
+      let o := decide s.a.win.1 s.a.win.2 s.oooWin ser p.x
       let lastIsHist := match ser.inorder with | l :: _ => l.kind ≠ .f || l.wild | [] => false
       let flag := flag || (p.x.kind = .f && p.x.stale && lastIsHist && rest.any (fun q => q.n = p.n))
       go rest (setS store p.n (applyOutcome ser p.x o)) (if o = .store then max hm p.x.t else hm) flag
   let (store, hm, flag) := go ps s.store (s.hMax.getD minI64) false
-  ({ s with store := store, hMax := (if s.live then some hm else s.hMax), pending := [], open_ := false }, flag)
+  ({ s with store := store, hMax := (if s.a.live then some hm else s.hMax), a := {} }, flag)
+
+/-- Verdict of one op: `.error` = the violation text or `"ok"` (stop: out-of-protocol input),
+    `.ok` = the next state and the "last commit had the C02-F1 shape" flag. -/
+def judgeOp (s : JState) (deferredInLastTx : Bool) (k : Nat) (op out : String) (tk : List String) :
+    Except String (JState × Bool) :=
+    match tk with
+    | ["cfg", w, cr, _] =>
+      match w.toInt?, cr.toInt? with
+      | some w, some cr => .ok ({ s with oooWin := (if w < 0 then 0 else w), cr := cr }, false)
+      | _, _ => .error "ok"
+    | ["trunc", m] =>
+      match m.toInt? with
+      | some m =>
+        if out = "ok" then
+          .ok ({ s with truncMin := some m, hMax := some (match s.hMax with | some h => max h m | none => m) }, false)
+        else .ok (s, deferredInLastTx)
+      | none => .error "ok"
+    | ["win"] =>
+      let want := match s.hMax with | none => "uninit" | some h => s!"{s.minValidNow h} {h}"
+      if out ≠ want then .error s!"violation window op={k} got={out} want={want}" else .ok (s, deferredInLastTx)
+    | ["app", v] =>
+      if out = "busy" then .ok (s, deferredInLastTx) else
+      let a : JApp := { open_ := true, v2 := (v = "v2") }
+      match s.hMax with
+      | none =>
+        if out ≠ "lazy" then .error s!"violation window op={k} got={out} want=lazy"
+        else .ok ({ s with a := { a with live := false } }, deferredInLastTx)
+      | some h =>
+        -- the window snapshot of this appender: the head as it is now
+        let want := s!"ok {s.minValidNow h} {h}"
+        if out ≠ want then .error s!"violation window op={k} got={out} want={want}"
+        else .ok ({ s with a := { a with live := true, win := (s.minValidNow h, h) } }, deferredInLastTx)
+    | ["opt", b] =>
+      if !s.a.open_ then .ok (s, deferredInLastTx) else
+      let on := b = "1"
+      .ok ({ s with a := { s.a with reject := on, rejectLazyOnly := on ∧ !s.a.v2 ∧ !s.a.live } }, deferredInLastTx)
+    | ["commit"] =>
+      if !s.a.open_ then .ok (s, deferredInLastTx) else
+      if out ≠ "ok" then .error s!"violation commit-error op={k} {out}" else
+      .ok (commitPending s)
+    | ["rollback"] =>
+      if !s.a.open_ then .ok (s, deferredInLastTx) else
+      if out ≠ "ok" then .error s!"violation rollback-error op={k} {out}" else
+      .ok ({ s with a := {} }, false)
+    | ["q", n] =>
+      let want := expectedQ (getS s.store n)
+      let got := normQ out
+      let ioTs := match toks out with | [a, _] => tsOfList (a.drop 3).toString | _ => []
+      let allTs := match toks out with | [_, b] => tsOfList (b.drop 4).toString | _ => []
+      if !(strictlyIncreasing ioTs && strictlyIncreasing allTs) then .error s!"violation not-increasing op={k} series={n} got={out}"
+      else if got ≠ want then
+        let sig := if deferredInLastTx then "stored-stale-deferred" else "stored"
+        .error s!"violation {sig} op={k} series={n} want={want} got={got}"
+      else .ok (s, deferredInLastTx)
+    | [kd, n, t, v] =>
+      match parseJ? kd t v with
+      | none => .error "ok"
+      | some x =>
+        if !s.a.open_ then .ok (s, deferredInLastTx) else
+        -- a lazily created appender takes its window when its first sample is appended: from the head as
+        -- it is then (initialised by this very timestamp if nobody did it before)
+        let s := if s.a.live then s else
+          let h := match s.hMax with | some h => h | none => x.t
+          { s with hMax := some h, a := { s.a with live := true, win := (s.minValidNow h, h) } }
+        -- admission: the appender's snapshot + the series' newest in-order sample as committed by now
+        let o := decide s.a.win.1 s.a.win.2 s.oooWin (getS s.store n) x
+        let allowed := allowedAnswers o s.a.reject
+        if allowed.contains out then
+          .ok ((if out = "ok" then { s with a := { s.a with pending := ⟨n, x⟩ :: s.a.pending } } else s), deferredInLastTx)
+        else
+          let ver := if s.a.v2 then "v2" else "v1"
+          let sig :=
+            if out = "ok" ∧ o = .ooo ∧ s.a.reject then
+              (if !s.a.v2 ∧ (x.kind ≠ .f ∨ (x.stale ∧ hasHistBefore s.a.pending n)) then "reject-ignored-v1-histogram"
+               else if s.a.rejectLazyOnly then "reject-lost-initappender"
+               else "reject-ignored")
+            else "append-decision"
+          .error s!"violation {sig} op={k} `{op}` ver={ver} got={out} allowed={allowed} outcome={repr o} window={s.a.win.1},{s.a.win.2} oooWin={s.oooWin}"
+    | _ => .error "ok"
+
+def slotOpJ (tk : List String) : Bool :=
+  match tk with
+  | op :: _ => op = "app" || op = "opt" || op = "f" || op = "h" || op = "fh" || op = "commit" || op = "rollback"
+  | [] => false
 
 def judgeGo (s : JState) (deferredInLastTx : Bool) (k : Nat) : List String → List String → String
   | op :: ops, out :: outs =>
     if out.startsWith "panic" then s!"violation panic op={k} `{op}` {out}" else
     -- malformed / out-of-protocol op sequences (only produced by the shrinker) are outside the statement
     if out = "bad-op" ∨ out = "noapp" ∨ out = "busy" then "ok" else
-    match toks op with
-    | ["cfg", w, cr, _] =>
-      match w.toInt?, cr.toInt? with
-      | some w, some cr => judgeGo { s with oooWin := (if w < 0 then 0 else w), cr := cr } false (k + 1) ops outs
-      | _, _ => "ok"
-    | ["trunc", m] =>
-      match m.toInt? with
-      | some m =>
-        if out = "ok" then
-          judgeGo { s with truncMin := some m, hMax := some (match s.hMax with | some h => max h m | none => m) } false (k + 1) ops outs
-        else judgeGo s deferredInLastTx (k + 1) ops outs
-      | none => "ok"
-    | ["win"] =>
-      let want := match s.hMax with | none => "uninit" | some h => s!"{s.minValidNow h} {h}"
-      if out ≠ want then s!"violation window op={k} got={out} want={want}" else judgeGo s deferredInLastTx (k + 1) ops outs
-    | ["app", v] =>
-      if out = "busy" then judgeGo s deferredInLastTx (k + 1) ops outs else
-      let s := { s with open_ := true, v2 := (v = "v2"), reject := false, rejectLazyOnly := false, pending := [] }
-      match s.hMax with
-      | none =>
-        if out ≠ "lazy" then s!"violation window op={k} got={out} want=lazy"
-        else judgeGo { s with live := false } deferredInLastTx (k + 1) ops outs
-      | some h =>
-        let want := s!"ok {s.minValidNow h} {h}"
-        if out ≠ want then s!"violation window op={k} got={out} want={want}"
-        else judgeGo { s with live := true, win := (s.minValidNow h, h) } deferredInLastTx (k + 1) ops outs
-    | ["opt", b] =>
-      if !s.open_ then judgeGo s deferredInLastTx (k + 1) ops outs else
-      let on := b = "1"
-      judgeGo { s with reject := on, rejectLazyOnly := on ∧ !s.v2 ∧ !s.live } deferredInLastTx (k + 1) ops outs
-    | ["commit"] =>
-      if !s.open_ then judgeGo s deferredInLastTx (k + 1) ops outs else
-      if out ≠ "ok" then s!"violation commit-error op={k} {out}" else
-      let (s', flag) := commitPending s
-      judgeGo s' flag (k + 1) ops outs
-    | ["rollback"] =>
-      if !s.open_ then judgeGo s deferredInLastTx (k + 1) ops outs else
-      if out ≠ "ok" then s!"violation rollback-error op={k} {out}" else
-      judgeGo { s with pending := [], open_ := false } false (k + 1) ops outs
-    | ["q", n] =>
-      let want := expectedQ (getS s.store n)
-      let got := normQ out
-      let ioTs := match toks out with | [a, _] => tsOfList (a.drop 3).toString | _ => []
-      let allTs := match toks out with | [_, b] => tsOfList (b.drop 4).toString | _ => []
-      if !(strictlyIncreasing ioTs && strictlyIncreasing allTs) then s!"violation not-increasing op={k} series={n} got={out}"
-      else if got ≠ want then
-        let sig := if deferredInLastTx then "stored-stale-deferred" else "stored"
-        s!"violation {sig} op={k} series={n} want={want} got={got}"
-      else judgeGo s deferredInLastTx (k + 1) ops outs
-    | [kd, n, t, v] =>
-      match parseJ? kd t v with
-      | none => "ok"
-      | some x =>
-        if !s.open_ then judgeGo s deferredInLastTx (k + 1) ops outs else
-        -- a lazily created appender takes its window from the first appended timestamp
-        let s := if s.live then s else
-          let h := match s.hMax with | some h => h | none => x.t
-          { s with live := true, hMax := some h, win := (s.minValidNow h, h) }
-        let o := decide s.win.1 s.win.2 s.oooWin (getS s.store n) x
-        let allowed := allowedAnswers o s.reject
-        if allowed.contains out then
-          judgeGo (if out = "ok" then { s with pending := ⟨n, x⟩ :: s.pending } else s) deferredInLastTx (k + 1) ops outs
-        else
-          let ver := if s.v2 then "v2" else "v1"
-          let sig :=
-            if out = "ok" ∧ o = .ooo ∧ s.reject then
-              (if !s.v2 ∧ (x.kind ≠ .f ∨ (x.stale ∧ hasHistBefore s.pending n)) then "reject-ignored-v1-histogram"
-               else if s.rejectLazyOnly then "reject-lost-initappender"
-               else "reject-ignored")
-            else "append-decision"
-          s!"violation {sig} op={k} `{op}` ver={ver} got={out} allowed={allowed} outcome={repr o} window={s.win.1},{s.win.2} oooWin={s.oooWin}"
-    | _ => "ok"
+    let r : Except String (JState × Bool) :=
+      match toks op with
+      | "@1" :: rest =>
+        if slotOpJ rest then (judgeOp s.swap1 deferredInLastTx k op out rest).map (fun p => (p.1.swap1, p.2)) else .error "ok"
+      | "@2" :: rest =>
+        if slotOpJ rest then (judgeOp s.swap2 deferredInLastTx k op out rest).map (fun p => (p.1.swap2, p.2)) else .error "ok"
+      | tk => judgeOp s deferredInLastTx k op out tk
+    match r with
+    | .error v => v
+    | .ok (s', flag) => judgeGo s' flag (k + 1) ops outs
   | _, _ => "ok"
 
 def judge (ops outs : List String) : String := judgeGo {} false 0 ops outs
